@@ -623,6 +623,22 @@ class TargetList:
             env.vars[n] = MappedList(before[n], after[n][len(before[n]):], self, after[n][:len(before[n])] == before[n])
 
 
+def _targets_comprehension(self, I, e, env, module):
+    """[template(t) for t in unary_rules[x]]: the comprehension form of the map loop"""
+    from vc.pyvc import Env
+    if self.iteration is not None or len(e.generators) != 1 or e.generators[0].ifs or not isinstance(e, ast.ListComp):
+        raise CheckerError('the target list is iterated more than once / by a filtering or nested comprehension')
+    elem = z3.Const('target', I.w.Cat)
+    cenv = Env(env)
+    I.assign(e.generators[0].target, Z(elem), cenv, module)
+    v = I.eval(e.elt, cenv, module)
+    self.iteration = dict(elem=elem, before={}, after={}, changed=[])
+    return MappedList([], [v], self, True)
+
+
+TargetList.comprehension = _targets_comprehension
+
+
 class MappedList(list):
     def __init__(self, prefix, appended, targets, wellformed):
         list.__init__(self)
